@@ -86,7 +86,7 @@ PROPS = {
     'C09': dict(
         runs=[dict(src='c09_invalid_calls.c')],
         level='exploration',
-        rule=('case = all call sequences of depth 3 (4 formats; depth 2 on 8 more; thorough: depth 3 everywhere) from a 28-call alphabet of valid and '
+        rule=('case = all call sequences of depth 3 from a 28-call alphabet of valid and '
               'invalid calls (wrong mode, misaligned/negative/zero counts, bad whence, negative/out-of-range seek, unknown command, NULL data, bad string '
               'type, NULL string, read-only set_string/set_chunk, bad truncate) on read / write / rdwr handles of 12 representative formats; plus 10 kinds '
               'of failing sf_open* (fd and heap accounting), NULL-handle calls and the sf_error_number table. distinct = hash(format, mode, call sequence)'),
@@ -118,7 +118,7 @@ PROPS = {
               'another format, insert a 17-77 KB skippable chunk, noise run}, random bytes with/without magic. Routes: virtual I/O (5/8), memfd descriptor (2/8), pipe (1/8). After a successful '
               'open a seeded script of reads (4 types, item/frame), seeks (3 whence), strings, chunk iteration + short-buffer gets, metadata and CALC '
               'commands runs on exact-size buffers. distinct = hash(input bytes, route)'),
-        assumptions=COMMON_ASSUME + ['termination: I/O-callback budget 64 x (input bytes + 70000) + 4096 (deterministic), the same budget on read()/lseek() calls for the descriptor and pipe routes (--wrap), and an 8 s wall watchdog that must fire twice',
+        assumptions=COMMON_ASSUME + ['termination: I/O-callback budget 64 x (input bytes + 70000) + 4096 (deterministic), the same budget on read()/lseek() calls for the descriptor and pipe routes (--wrap), and a 20 s wall watchdog that must fire twice',
                                      'UBSan shift/signed-overflow/alignment checks are off (see DESIGN section 3); the ALAC mShiftBuffer union idiom is filtered',
                                      'inputs are derived from 300-frame files; multi-megabyte inputs are not explored'],
         floor={'quick': 5000, 'thorough': 50000},
@@ -204,10 +204,9 @@ PROPS = {
     'C18': dict(
         runs=[dict(src='c18_peak_signal_max.c')],
         level='exploration',
-        rule=('part A: case = (PEAK container in WAV/WAVEX/AIFF/CAF/RF64, float|double, channels in {1,2,5,8,(3)}, write type in 4, sequence in {max at first frame, last '
+        rule=('part A: case = (PEAK container in WAV/WAVEX/AIFF/CAF/RF64, float|double, channels in {1,2,5,8,3}, write type in 4, sequence in {max at first frame, last '
               'frame, at the 2048-item staging boundary, middle, tied maxima, silence}, partition in 6); after re-open SFC_GET_SIGNAL_MAX / MAX_ALL_CHANNELS and the PEAK '
-              'chunk parsed by the harness (value and FIRST position per channel) are compared with maxima computed by the harness in the file precision. quick runs one '
-              'third of the cross product, thorough all of it. part B: every seekable format x {1,2} channels: the four SFC_CALC_* commands at positions {0, F/2, F} under 4 '
+              'chunk parsed by the harness (value and FIRST position per channel) are compared with maxima computed by the harness in the file precision. the whole cross product in both tiers (thorough adds more random lengths). part B: every seekable format x {1,2} channels: the four SFC_CALC_* commands at positions {0, F/2, F} under 4 '
               'normalisation profiles vs maxima from an independent handle; position, norm flags and the next frame read must be unchanged. distinct = hash(parameters)'),
         assumptions=COMMON_ASSUME + ['true maxima of lossy codecs are taken from a full sf_readf_double on a second handle (its conversion rules are C02)',
                                      'PEAK chunk layout (WAV/AIFF: version, timestamp, {float32 value, uint32 position} per channel; CAF: edit count, {float32, uint64}) is coded in the harness'],
@@ -245,8 +244,8 @@ PROPS = {
     'C14': dict(
         runs=[dict(src='c14_routes.c', ldflags='-Wl,--wrap=time,--wrap=gettimeofday')],
         level='exploration',
-        rule=('case = (format, channels, variant): one generated file (variants: plain, strings, 60 KB custom chunk before the audio, truncated tail, damaged '
-              'header byte) opened through virtual I/O (reference), path, descriptor with close_desc 0 and 1, descriptor positioned at offsets 1/7/4096 inside a '
+        rule=('case = (format, channels, variant): one generated file (16 variants = subsets of {strings, 52-82 KB JUNK chunk spliced in before the audio, truncated tail, damaged '
+              'header byte}) opened through virtual I/O (reference), path, descriptor with close_desc 0 and 1, descriptor positioned at offsets 1/7/4096 inside a '
               'file with leading and trailing junk (WAV, WAVEX, AIFF, AU) and a pre-filled pipe (WAV, AIFF, AU sample-granular): SF_INFO, samples in 4 types, strings '
               'and open outcome compared; fcntl(F_GETFD) and /proc/self/fd before/after for close_desc. Plus per format the same write script through path, '
               'descriptor and virtual I/O (bytes compared; SVX/MPC2K length only) and an embedded write behind existing content. distinct = hash(format, ch, variant, PRNG state)'),
